@@ -3,6 +3,7 @@ package props
 import (
 	"encoding/json"
 	"fmt"
+	"github.com/hashicorp/go-multierror"
 
 	"verif.local/harness/core"
 	"verif.local/harness/world"
@@ -25,7 +26,7 @@ func (C04) Info() core.Info {
 	return core.Info{
 		Rule:        "planned (derivable by construction) worlds with conversion chains of depth 1-4, diamonds, multi-input, struct-returning, built and run-once converters and noise; fault plan: 1-3 (party, k-th execution) entries return a fresh error value (now and then a typed-nil pointer of an error type, which is a non-nil error, or an unsatisfied-argument error of the converter's own making), including the target itself; 1-2 operations per history: Call, and sometimes the same resolution through Redefine + a call of the redefined function, or Convert. Oracle over the ordered party log of each call: the first failing execution's error value is what Call returns (pointer identity), nothing runs after it, the target does not run; no error => no execution failed. Non-trivial: a fault actually fired; distinct = distinct (world shape incl. fault plan, event-log hash)",
 		Assumptions: []string{"injected errors are unique pointer values, so identity comparison is exact"},
-		Probes:      []string{"fault_fired_conv_error", "c04_failed_at_depth_ge2", "c04_failed_multi_input", "c04_failed_struct_returning", "c04_failed_built", "c04_failed_once", "c04_target_error", "c04_redefined_calls", "c04_typed_nil_error", "c04_own_unsatisfied_error", "c04_no_error_calls", "s1_nonidentity_perms"},
+		Probes:      []string{"fault_fired_conv_error", "c04_failed_at_depth_ge2", "c04_failed_multi_input", "c04_failed_struct_returning", "c04_failed_built", "c04_failed_once", "c04_target_error", "c04_redefined_calls", "c04_typed_nil_error", "c04_own_unsatisfied_error", "c04_own_error_list", "c04_failed_after_once_target_ran", "c04_no_error_calls", "s1_nonidentity_perms"},
 		Real:        realComponents,
 		Simulated:   simComponents,
 	}
@@ -57,8 +58,26 @@ func (C04) Gen(r *simrt.RNG, tier string) core.Case {
 			kind = "typed_nil_error" // a nil pointer of an error type: still a non-nil error value
 		case 2:
 			kind = "unsat_error" // the converter's own *ErrArgumentUnsatisfied
+		case 3:
+			kind = "multierror_single" // the converter's own one-entry error list
 		}
 		w.Faults = append(w.Faults, world.Fault{Kind: kind, Party: pi, Nth: 1 + r.Intn(2)})
+	}
+	if r.Chance(1, 8) && len(w.Parties) > 1 {
+		// a run-once target that has already succeeded; a converter fails in a later call
+		w.Parties[0].Once = true
+		w.Faults = nil
+		var cands []int
+		for pi := 1; pi < len(w.Parties); pi++ {
+			if w.Parties[pi].HasErr && !w.Parties[pi].Once {
+				cands = append(cands, pi)
+			}
+		}
+		if len(cands) > 0 {
+			w.Faults = append(w.Faults, world.Fault{Kind: "conv_error", Party: cands[r.Intn(len(cands))], Nth: 2})
+		}
+		w.Ops = append(w.Ops, w.Ops[0])
+		return RCase{W: w}
 	}
 	switch r.Intn(6) {
 	case 0, 1:
@@ -88,7 +107,7 @@ func c04Valid(w world.World) bool {
 		}
 	}
 	for _, f := range w.Faults {
-		if f.Kind != "conv_error" && f.Kind != "typed_nil_error" && f.Kind != "unsat_error" {
+		if f.Kind != "conv_error" && f.Kind != "typed_nil_error" && f.Kind != "unsat_error" && f.Kind != "multierror_single" {
 			return false
 		}
 	}
@@ -150,6 +169,12 @@ func (C04) Run(c core.Case, ctx *core.Ctx) []core.Violation {
 			}
 			if first != nil {
 				fired = true
+				if tgt >= 0 && w.Parties[tgt].Once && oi > 0 && rt.Results[0] != nil && rt.Results[0].Returned && rt.Results[0].Err == nil {
+					ctx.St.Inc("c04_failed_after_once_target_ran")
+				}
+				if _, ok := first.ErrAny.(*multierror.Error); ok {
+					ctx.St.Inc("c04_own_error_list")
+				}
 				p := rt.Parties[first.Party]
 				if first.TypedNil {
 					ctx.St.Inc("c04_typed_nil_error")
